@@ -287,6 +287,12 @@ class InMemoryStorage(BaseStorage):
                 self._update_cache(trial_id, study_id)
             else:
                 self._set_trial(trial_id, trial)
+                if state == TrialState.WAITING:
+                    # The WAITING scan in `get_all_trials` starts at this cursor.
+                    study_id, number = self._trial_id_to_study_id_and_number[trial_id]
+                    self._prev_waiting_trial_number[study_id] = min(
+                        self._prev_waiting_trial_number[study_id], number
+                    )
 
             return True
 
